@@ -335,6 +335,9 @@ pub const KNOWS: [Know; 6] = [Know::Unknown, Know::Alive, Know::Suspect, Know::D
 #[derive(Clone, Debug)]
 pub struct C18World {
     pub renew: bool,
+    /// renew() hands out an identity that LOSES against the current one (a
+    /// generation counter that wrapped): Foca must refuse it
+    pub renew_loses: bool,
     pub notify_down: bool,
     pub fanout: usize,
     /// know[i][j]: what i knows about j
@@ -344,12 +347,17 @@ pub struct C18World {
     pub defunct: Vec<bool>,
     /// the instance refuted a suspicion earlier (own incarnation 1)
     pub bumped: Vec<bool>,
+    /// what the others hold about a bumped instance carries its current
+    /// incarnation (1) instead of the stale 0
+    pub known_current: bool,
 }
 
 fn c18_build(w: &C18World) -> Vec<F> {
     let k = w.know.len();
     let cfg = Cfg { notify_down: w.notify_down, fanout: w.fanout, ..Cfg::default() };
-    let ident = |a: usize| id(a as u8, 1).with(if w.renew { Renew::Next } else { Renew::None });
+    // the "renew() loses" worlds sit at the top of the generation counter
+    let base: u8 = if w.renew_loses { 255 } else { 1 };
+    let ident = |a: usize| id(a as u8, base).with(if w.renew_loses { Renew::Wrap } else if w.renew { Renew::Next } else { Renew::None });
     let mut v = Vec::new();
     for i in 0..k {
         let mut f = new_foca(ident(i), &cfg, FixCodec::default(), TableHandler::new(InvMode::NewerVersion));
@@ -361,14 +369,15 @@ fn c18_build(w: &C18World) -> Vec<F> {
             if i == j {
                 continue;
             }
-            let j1 = id(j as u8, 1);
+            let j1 = id(j as u8, base);
+            let inc = u16::from(w.bumped[j] && w.known_current);
             match w.know[i][j] {
                 Know::Unknown => {}
-                Know::Alive => ups.push(Member::new(j1, 0, State::Alive)),
-                Know::Suspect => ups.push(Member::new(j1, 0, State::Suspect)),
-                Know::Down => ups.push(Member::new(j1, 0, State::Down)),
-                Know::OlderGen => ups.push(Member::new(id(j as u8, 0), 0, State::Alive)),
-                Know::NewerGen => ups.push(Member::new(id(j as u8, 2), 0, State::Alive)),
+                Know::Alive => ups.push(Member::new(j1, inc, State::Alive)),
+                Know::Suspect => ups.push(Member::new(j1, inc, State::Suspect)),
+                Know::Down => ups.push(Member::new(j1, inc, State::Down)),
+                Know::OlderGen => ups.push(Member::new(id(j as u8, base - 1), 0, State::Alive)),
+                Know::NewerGen => ups.push(Member::new(id(j as u8, base.wrapping_add(1)), 0, State::Alive)),
             }
         }
         if w.has_other[i] {
@@ -492,12 +501,13 @@ fn c18_initial_datagrams(w: &C18World, nodes: &[F]) -> Vec<(u8, Vec<u8>)> {
             }
             // destinations: the identity j really has, and the one i believes in
             let mut dsts = vec![*nodes[j].identity()];
+            let base: u8 = if w.renew_loses { 255 } else { 1 };
             match w.know[i][j] {
-                Know::OlderGen => dsts.push(id(j as u8, 0)),
-                Know::NewerGen => dsts.push(id(j as u8, 2)),
+                Know::OlderGen => dsts.push(id(j as u8, base - 1)),
+                Know::NewerGen => dsts.push(id(j as u8, base.wrapping_add(1))),
                 _ => {}
             }
-            let third = id(((0..k).find(|x| *x != i && *x != j).unwrap_or(7)) as u8, 1);
+            let third = id(((0..k).find(|x| *x != i && *x != j).unwrap_or(7)) as u8, base);
             for dst in dsts {
                 let msgs: Vec<(Message<Id>, bool)> = vec![
                     (Message::Ping(3), true),
@@ -538,7 +548,7 @@ pub fn c18(tier: &str) -> Report {
     let cap = 64usize;
     let mut worlds: Vec<C18World> = Vec::new();
     // pairs: the full domain
-    for renew in [false, true] {
+    for (renew, renew_loses) in [(false, false), (true, false), (true, true)] {
         for notify_down in [false, true] {
             for &fanout in &[1usize, 3] {
                 for ka in KNOWS {
@@ -547,8 +557,8 @@ pub fn c18(tier: &str) -> Report {
                             for ob in [false, true] {
                                 for da in [false, true] {
                                     for db in [false, true] {
-                                        for (ba, bb) in [(false, false), (true, false), (true, true)] {
-                                            worlds.push(C18World { renew, notify_down, fanout, know: vec![vec![Know::Unknown, ka], vec![kb, Know::Unknown]], has_other: vec![oa, ob], defunct: vec![da, db], bumped: vec![ba, bb] });
+                                        for (ba, bb, known_current) in [(false, false, false), (true, false, false), (true, true, false), (true, false, true), (true, true, true)] {
+                                            worlds.push(C18World { renew, renew_loses, notify_down, fanout, know: vec![vec![Know::Unknown, ka], vec![kb, Know::Unknown]], has_other: vec![oa, ob], defunct: vec![da, db], bumped: vec![ba, bb], known_current });
                                         }
                                     }
                                 }
@@ -568,8 +578,8 @@ pub fn c18(tier: &str) -> Report {
             loop {
                 let g = |p: usize| tk[idx[p]];
                 for defunct0 in [false, true] {
-                    for bumped in [false, true] {
-                        worlds.push(C18World { renew, notify_down, fanout: 3, know: vec![vec![Know::Unknown, g(0), g(1)], vec![g(2), Know::Unknown, g(3)], vec![g(4), g(5), Know::Unknown]], has_other: vec![false; 3], defunct: vec![defunct0, false, false], bumped: vec![bumped; 3] });
+                    for (bumped, known_current) in [(false, false), (true, false), (true, true)] {
+                        worlds.push(C18World { renew, renew_loses: false, notify_down, fanout: 3, know: vec![vec![Know::Unknown, g(0), g(1)], vec![g(2), Know::Unknown, g(3)], vec![g(4), g(5), Know::Unknown]], has_other: vec![false; 3], defunct: vec![defunct0, false, false], bumped: vec![bumped; 3], known_current });
                     }
                 }
                 let mut p = 0;
